@@ -9,6 +9,7 @@ Line protocol of the C15 model (R = Rat).  Arrays: `s:<rat>` (0-d), `v:<vec>` (1
 
   map    <A> <rangeDim> <domainDim> <ce> <cx> <x0> <b>  -> `<array>` | `err:<Class>`     (BayesianProblem.MAP, direct branch)
   mapx0  <disp 0|1> <user x0 | none> <A> <rangeDim> <domainDim> <ce> <cx> <prior mean> <b> -> as `map`  (MAP(disp, x0), direct route)
+  covstate <covMutable 0|1> <_cov | none> <set:<arr> | cc:<full arr>> ...  -> `<array>` | `none`   (what the cov getter holds after the history)
   centre <A> <rangeDim> <domainDim> <ce> <cx> <x0> <b>  -> `<array>` | `err:<Class>`     (_sampleMapCholesky up to the factorisation)
   ref    <A> <We> <Wx> <x0> <b>                         -> `mean=<vec> cov=<mat>` | `err` (exact posterior mean/covariance, certified)
   getmatrix <mb|fn> <A> <E> <F>                         -> `m:<mat>`                      (LinearModel.get_matrix)
@@ -87,6 +88,19 @@ def step : List String → String
     | some disp, some ux, some A, some rd, some dd, some ce, some cx, some pm, some b =>
       fmtRes (mapMethod slvQ disp ux A rd dd ce cx pm b)
     | _, _, _, _, _, _, _, _, _ => "bad-op"
+  | "covstate" :: mutS :: init :: ops =>
+    match parseBool mutS, parseCov init with
+    | some isMut, some init =>
+      let parsed : Option (List (CovOp Q)) := ops.mapM (fun o =>
+        if o.startsWith "set:" then (parseArr (o.drop 4).toString).map CovOp.setMain
+        else if o.startsWith "cc:" then (parseArr (o.drop 3).toString).map CovOp.computeCov
+        else none)
+      match parsed with
+      | some ops => match (CovState.run { covMutable := isMut, cov := init } ops).cov with
+        | some a => fmtArr a
+        | none => "none"
+      | none => "bad-op"
+    | _, _ => "bad-op"
   | ["centre", a, rd, dd, ce, cx, x0, b] =>
     match parseArr a, rd.toNat?, dd.toNat?, parseCov ce, parseCov cx, parseArr x0, parseArr b with
     | some A, some rd, some dd, some ce, some cx, some x0, some b => fmtRes (sampleCentre slvQ A rd dd ce cx x0 b)
